@@ -301,12 +301,25 @@ func (e *cloneSetEnv) EnvDo(w *World, a string) error {
 				return err
 			}
 		} else if len(pods) > R {
-			// delete an old-revision pod first if more than the partition keeps, else an updated one
-			var victim *corev1.Pod
+			// scale-in keeps ceil(partition) pods at old revisions: delete an old pod only while more than that
+			// exist, otherwise an updated one; within the class an unready pod goes first
+			updated := 0
 			for _, p := range pods {
-				if podRev(p) != upd {
-					victim = p
-					break
+				if podRev(p) == upd {
+					updated++
+				}
+			}
+			wantOld := len(pods)-updated > partitionCount(cs.Spec.UpdateStrategy.Partition, R)
+			if updated == 0 {
+				wantOld = true
+			}
+			var victim *corev1.Pod
+			for pass := 0; pass < 2 && victim == nil; pass++ {
+				for _, p := range pods {
+					if (podRev(p) != upd) == wantOld && (pass == 1 || !podReady(p)) {
+						victim = p
+						break
+					}
 				}
 			}
 			if victim == nil {
@@ -467,3 +480,6 @@ func labelledFor(pods []*corev1.Pod, rid string) int {
 	}
 	return n
 }
+
+// LabelledFor counts live pods carrying rollout-id == rid.
+func (e *cloneSetEnv) LabelledFor(w *World, rid string) int { return labelledFor(e.pods(w), rid) }
